@@ -149,6 +149,23 @@ Proof. intros. repeat split; [apply tw_weight_one_sq | apply tw_weight_one_abs |
   | apply tw_weight_one_expectile | apply tw_weight_one_huber]; assumption. Qed.
 Print Assumptions C10_tw_weight_one.
 
+Theorem C10_tw_weight_one_trap : forall a b c d alpha v f o : Q, a < b -> c < d -> b <= f -> b <= o -> f < c -> o < c -> 0 <= v ->
+  q_tw_sq_trap a b c d f o == q_sq_err f o /\ q_tw_abs_trap a b c d f o == q_abs_err f o /\
+  q_tw_quantile_trap a b c d alpha f o == q_pinball alpha f o /\ q_tw_expectile_trap a b c d alpha f o == q_asym_sq alpha f o /\
+  q_tw_huber_trap a b c d v f o == q_huber v f o.
+Proof. exact tw_weight_one_trap. Qed.
+Print Assumptions C10_tw_weight_one_trap.
+
+(* two half-lines (-inf, b) and [b, inf) -- with the finite replacements L, U of the infinite end points -- sum to the unweighted score *)
+Theorem C10_tw_partition_halflines : forall L b U alpha v f o : Q, 0 <= v -> L <= f -> L <= o -> f <= U -> o <= U -> L <= b -> b <= U ->
+  q_tw_sq_rect L b f o + q_tw_sq_rect b U f o == q_sq_err f o /\
+  q_tw_abs_rect L b f o + q_tw_abs_rect b U f o == q_abs_err f o /\
+  q_tw_quantile_rect L b alpha f o + q_tw_quantile_rect b U alpha f o == q_pinball alpha f o /\
+  q_tw_expectile_rect L b alpha f o + q_tw_expectile_rect b U alpha f o == q_asym_sq alpha f o /\
+  q_tw_huber_rect L b v f o + q_tw_huber_rect b U v f o == q_huber v f o.
+Proof. exact tw_partition_halflines. Qed.
+Print Assumptions C10_tw_partition_halflines.
+
 (* ---- soundness of the replacement of infinite end points: an end point at or beyond the data can be moved freely ---- *)
 Theorem C10_inf_replacement_sound_rect : forall a1 a2 b1 b2 alpha v f o : Q,
   a1 <= f -> a1 <= o -> a2 <= f -> a2 <= o -> f <= b1 -> o <= b1 -> f <= b2 -> o <= b2 -> 0 <= v ->
